@@ -225,6 +225,34 @@ def main():
         base = run("insert into s.o select * from s.a", None, None, "ansi")
         if got != base:
             fails.append({"id": "isolation/sqlalchemy", "clause": "unknown_tables_answer_as_without_metadata", "sql": "insert into s.o select * from s.a", "metadata": empty, "got": got[1], "want": base[1], "note": "a second SQLAlchemy provider whose database lacks s.a answered with the columns the first provider reflected"})
+    if not confirm:
+        # two in-scope tables with the SAME bare name in different schemas: a column listed by one of them only goes to that one
+        twin = {"raw.orders": ["oid", "amount"], "dw.orders": ["oid", "total"], "dw.customers": ["cid"]}
+        for col, owner in (("amount", "raw.orders"), ("total", "dw.orders")):
+            for frm in ("raw.orders r join dw.orders d on r.oid = d.oid", "dw.orders d join raw.orders r on r.oid = d.oid"):
+                for pk in providers:
+                    evals += 1
+                    sql = f"insert into s.o select {col} from {frm}"
+                    got = run(sql, twin, pk, "ansi")[1]
+                    want = [(f"{owner}.{col}", f"s.o.{col}")]
+                    if [tuple(p) for p in got] != want:
+                        fails.append({"id": f"twin/{col}/{pk}", "clause": "unqualified_column_attributed_to_exactly_the_listing_tables", "sql": sql, "metadata": twin, "got": got, "want": want})
+        # a provider that served a run which FAILED part-way answers the next run as a fresh one: what that run learned about
+        # a table the catalog does not know is forgotten, so the table is unknown again
+        for pk in providers:
+            evals += 1
+            meta = {"zz.other": ["q"]}
+            prov = DummyMetaDataProvider(meta) if pk == "dict" else sa_provider(meta)
+            try:
+                r0 = LineageRunner("create table stg.scratch as select id, amount from s.a; select from where", metadata_provider=prov)
+                r0.source_tables
+            except Exception:
+                pass
+            r1 = LineageRunner("insert into s.o select * from stg.scratch", metadata_provider=prov)
+            got = sorted({(str(p[0]), str(p[-1])) for p in r1.get_column_lineage()})
+            base = run("insert into s.o select * from stg.scratch", None, None, "ansi")[1]
+            if got != base:
+                fails.append({"id": f"after_failed_run/{pk}", "clause": "unknown_tables_answer_as_without_metadata", "sql": "insert into s.o select * from stg.scratch (after a failed run that created stg.scratch)", "metadata": meta, "got": got, "want": base})
     print(json.dumps({"evaluations": evals, "distinct_nontrivial": len(distinct), "violations": fails[:60], "input": fails[0] if fails else None}))
     return 1 if fails else 0
 
